@@ -665,6 +665,14 @@ def c17(d, run):
     run.add_mc(mc, "MC_Histogram (bounds 2,4,8; values on/around bounds; <= 6 updates / clears: count = sum of buckets, percentile rule)")
     if mc["violated"]:
         run.violation("Histogram.tla violates %s" % mc["violated"], replay_lines=[mc["out"][-4000:]])
+    hb = d.apalache("HistogramInd.tla", run.workdir, "IndInv", 0)
+    hs = d.apalache("HistogramInd.tla", run.workdir, "IndInv", 1, init="IndInit")
+    run.notes["apalache_inductive_histogram"] = {
+        "module": "HistogramInd.tla (bounds 2,4,8; values from all of 0..2^63-1; no bound on the number of updates / clears: count = sum of buckets, min <= max)",
+        "base_case": hb["status"], "inductive_step": hs["status"], "wall_s": round(hb["wall"] + hs["wall"], 1)}
+    for nm, r in (("base case", hb), ("inductive step", hs)):
+        if r["status"] == "error":
+            run.violation("HistogramInd.tla: IndInv fails its %s" % nm, replay_lines=[r["out"][-4000:]])
     ht = os.path.join(run.workdir, "histogram.ndjson")
     hi = d.vh(["histogram", "--out", ht, "--seed", run.seed, "--tier", run.tier])
     res = d.validate_chunks("Histogram_Trace.tla", "Histogram_Trace.cfg", [ht], run.workdir, par=1, start_events=("new",))
